@@ -102,3 +102,46 @@ def register(add):
         "encoding; RESET_TIMEOUT read from the tree.",
         "DESIGN.md 3/C11",
     )
+    add(
+        "C06",
+        "exploration",
+        "offline history checker over client/gateway/callback boundaries: request-response matching by sequence number, mutual exclusion, priority-queue model, sequence arithmetic; exhaustive 3-caller x class x NCP-behaviour schedules plus seeded schedules with cancellation",
+        "Real EZSP + version handler (v4, v8, v13) in frame mode on the virtual-time loop.  Callers of three "
+        "priority classes run concurrently; each request is answered per script (now, delayed, after the "
+        "timeout, never, twice, callback before/after, foreign sequence, link-level send failure) and callers "
+        "are cancelled while queued / sending / waiting.  The oracle checks R1 own response by sequence number, "
+        "R2 TimeoutError exactly EZSP_CMD_TIMEOUT after the request was sent, R3 unsolicited frames reach every "
+        "callback exactly once and nothing completes a foreign call, R4 one command between request and "
+        "termination, R5 queued commands start in class order, FIFO within a class, R6 sequence +1 mod 256 "
+        "(600-command runs wrap twice), R7 a probe command completes at quiescence.",
+        "Trusted: zigpy's PriorityDynamicBoundedSemaphore, the frame-mode stub gateway, type-level serialisers; "
+        "late replies and frames under a dead request's sequence are only required not to complete anything else.",
+        "DESIGN.md 3/C06",
+    )
+    add(
+        "C07",
+        "exploration",
+        "differential codec monitor at the gateway boundary and through EZSP.frame_received, every (version, command) pair enumerated; independent header codec",
+        "For all 11 versions and every command (2 751 pairs): frame IDs unique; the real call in positional and "
+        "keyword form emits the independently built header (sequence, frame control, ID in the version's layout) "
+        "followed by each declared parameter's serialisation in declared order; an independently framed response "
+        "carrying generated rx values completes the call with exactly those values and, unsolicited, reaches the "
+        "callbacks as (name, values), re-serialises to the same bytes and leaves no trailing bytes.  Values come "
+        "from the field types' own deserialisers over biased bytes (boundaries, empty/max lengths, undefined enums).",
+        "Trusted: zigpy type-level (de)serialisers; header layouts in rtmon/ezspref.py (UG100).",
+        "DESIGN.md 3/C07",
+    )
+    add(
+        "C08",
+        "exploration",
+        "containment monitor under frame fuzzing through the real receive entry point, reference 'decodes fully' predicate, every version, with and without a pending command",
+        "Frames derived from valid responses/callbacks by truncation at every length, byte flips, frame-ID and "
+        "sequence substitution, plus random strings, are injected through EZSP.frame_received in all 11 versions.  "
+        "Monitors: no exception escapes; the pending call is completed only by a frame with its own sequence and "
+        "frame ID and exactly that frame's values (InvalidCommandError for invalidCommand under its sequence); a "
+        "callback fires only for a frame the reference decodes completely as a known frame of the version, with "
+        "the reference's values; a fresh command completes afterwards.",
+        "Trusted: reference predicate uses the version's own ID table and the field types' deserialisers; "
+        "frame-control bytes are not judged, trailing bytes are allowed.",
+        "DESIGN.md 3/C08",
+    )
